@@ -157,7 +157,7 @@ fn op_case(case: &mut Case) -> CaseResult {
 }
 
 fn ts_case(case: &mut Case) -> CaseResult {
-    let mut doc = g_ts_doc(&mut case.ch);
+    let mut doc = g_ts_doc_with(&mut case.ch, SynOpts { bare_object: true, bare_union: true });
     let mut tame = tame_strings(case);
     map_ts_strings(&mut doc, &mut tame);
     let allow_ext_schema_dirs = case.allow("print_extend_schema_directives_only");
@@ -583,6 +583,8 @@ pub fn run(env: &Env) -> i32 {
     rep.probe("C16-print-variable-default", probe_op("query($a: Int = 1 @d) { a }"));
     rep.probe("C16-print-extend-schema-directives", probe_ts("extend schema @d"));
     rep.probe("C16-print-extend-union-directives", probe_ts("extend union U @d"));
+    rep.probe("C16-memberless-union-printed-with-equals", probe_ts("union Da\nscalar type\n"));
+    rep.probe("C16-memberless-union-printed-with-equals", probe_ts("union U @d\ntype T { a: Int }\n"));
 
     rep.campaign("server-schema-string", env.cases(20_000, 200_000), (100, 1200), server_case);
     {
